@@ -1,4 +1,7 @@
 // C15 -- predicates tell the truth: isZero, checkOverlap, ==, !=.
+#include <map>
+#include <memory>
+
 #include "common/cases.h"
 
 using namespace vc;
@@ -143,6 +146,33 @@ static void check_eq(const PredC &c, vf::Obs &o) {
   o.nt(c.relation != 0);
 }
 
+// long-lived splines compared with splines on short-lived grids (see h_support.cpp, check_longlived)
+static void check_longlived(const PredC &c, vf::Obs &o) {
+  static std::map<size_t, std::unique_ptr<bspline::Spline<double, 1>>> pool;
+  GridC gc; gc.den = 2; gc.off = -3;
+  size_t n = 2 + (size_t)(c.which % 7);
+  for (size_t i = 0; i + 1 < n; i++) gc.gaps.push_back(1 + (i64)(i % 3));
+  SplineC sc; sc.s = 0; sc.e = (i64)n; sc.cden = 2; sc.num = {3, -5, 2, 7, 1};
+  auto &slot = pool[n];
+  if (!slot) slot = std::make_unique<bspline::Spline<double, 1>>(make_spline<double, 1>(make_grid<double>(gc), sc));
+  const auto &L = *slot;
+  o.nt(true);
+  GridC g2 = gc;
+  bool equal = true;
+  switch (c.relation % 4) {
+    case 0: break;                                                    // equal grid in a distinct object
+    case 1: g2.gaps[(size_t)c.oa % g2.gaps.size()] += 1; equal = false; break;   // a point moved
+    case 2: g2.off += 1; equal = false; break;                           // all points shifted
+    default: g2.den = 4; g2.off *= 2; for (auto &gp : g2.gaps) gp *= 2; break;  // same values, other representation
+  }
+  {
+    auto fresh = make_spline<double, 1>(make_grid<double>(g2), sc);
+    VCHECK(o, (L == fresh) == equal && (fresh == L) == equal, "a long-lived spline and an identical spline on a fresh " << (equal ? "equal" : "DIFFERENT") << " grid compare " << ((L == fresh) ? "equal" : "unequal") << "/" << ((fresh == L) ? "equal" : "unequal") << " (the answer depends on earlier comparisons)");
+    VCHECK(o, (L != fresh) == !equal && (fresh != L) == !equal, "!= is not the negation of == for a long-lived spline and a fresh one");
+    o.cls(equal ? "fresh:equal-distinct" : "fresh:different");
+  }
+}
+
 static void check_preds(const PredC &c, vf::Obs &o) {
   size_t oa = (size_t)std::min<i64>(std::max<i64>(c.oa, 0), 3), ob = (size_t)std::min<i64>(std::max<i64>(c.ob, 0), 3);
   bool dbl = (c.which & 4) != 0 && c.g.den > 0 && (c.g.den & (c.g.den - 1)) == 0 && (c.a.cden & (c.a.cden - 1)) == 0 && (c.b.cden & (c.b.cden - 1)) == 0;
@@ -180,5 +210,6 @@ int main(int argc, char **argv) {
   });
   vf::add_sub<PredC>("iszero-overlap", 3000, gen, check_preds);
   vf::add_sub<PredC>("equality", 3000, gen, check_equality);
+  vf::add_sub<PredC>("long-lived-vs-fresh", 4000, rc::gen::exec([] { PredC c; c.which = pick(0, 63); c.relation = *rc::gen::weightedElement<i64>({{5, 0}, {2, 1}, {2, 2}, {1, 3}}); c.oa = pick(0, 9); return c; }), check_longlived);
   return vf::main_impl(argc, argv, "C15");
 }
